@@ -266,13 +266,20 @@ F47_REPLAY = dict(kind='lay', source=F47_SRC, expect_stdout='nil\n1\n', bad_re='
 
 @obligation('C07.K2.close_wakes_receivers', 'C07', programs=('core',))
 def k2_close(res, tier):
-    """ChannelQueue::close on an open queue on which receivers are parked (blocked, not runnable): once the queue is closed every
-    receive can complete (a buffered value or nil), so a parked receiver must be made runnable (or handed back for waking) by the
-    close; otherwise it waits forever for an operation that has become possible"""
+    """ChannelQueue::close on an open queue on which receivers are parked: once the queue is closed every receive can complete (a
+    buffered value or nil), so the parked receivers must be handed back by the close for resumption; otherwise they wait forever
+    for an operation that has become possible"""
     P = get_program('core')
     K = 2 if tier == 'quick' else 3
     res.bounds = {'waiter_lists': f'<= {K} entries each', 'queue_length': 'any <= capacity'}
-    res.assumptions = ['a fiber parked in a receive is in receive_waiters with its runnable flag cleared (op_receive: EmptyBlock -> Fiber::block)']
+    res.assumptions = ['the closing fiber does not record the channel as used: close is a native, add_used_channel is called by op_send / op_receive only '
+                       '(checked on the source), so no later walk of "channels I used" reaches these lists on behalf of the close; the only party that '
+                       'can hand the parked receivers to the scheduler is the close itself']
+    vm_src = ''.join(t for n, t in get_program('vm').items.files.items() if n.startswith('laythe_vm/src/vm/')) if tier else ''
+    lib_src = get_program('vm').items.files.get('laythe_lib/src/global/primitives/channel.rs', '')
+    if 'add_used_channel' in lib_src or 'runnable_waiter' in lib_src or 'fn op_close' in vm_src:
+        res.inconclusive('close has a route to the scheduler the obligation does not model (add_used_channel / runnable_waiter in the channel natives, or an op_close)')
+        return
     f = P.lookup('ChannelQueue::close')
     e = _engine(P, K)
 
@@ -280,22 +287,18 @@ def k2_close(res, tier):
         st = _queue_state(e, P, K)
         e.add_constraint(st.stt0 == st.S['Ready'])
         e.add_constraint(z3.UGE(st.rw.len, 1))
-        first = st.rw.seq.load(e, st.rw.head)
-        flag_cell = first.data_cell(e).get(e).field(e, 0, 'bool')
-        flag_cell.set(e, False)                        # parked: blocked, not runnable
         r = e.call(f, [Ref(Cell(st.q))])
         stt = _inv_after(e, st)
         e.check(z3.Or(stt == st.S['Closed'], stt == st.S['ClosedEmpty']), 'close: the queue is closed')
-        runnable = flag_cell.get(e)
         handed = st.rw.head != st.rw0[0]
-        e.check(z3.Or(to_z3_bool(runnable), handed), 'close: a receiver parked on the queue is made runnable (its receive can now complete)')
+        e.check(handed, 'close: a receiver parked on the queue is made runnable (its receive can now complete)')
         return {'receivers parked': '>= 1'}
     results = e.explore(path)
     for r in results:
         for lab, ok, info in list(r.checks):
             if not ok and 'parked on the queue is made runnable' in lab:
                 res.fail('C07.K2:close leaves parked receivers blocked',
-                         'ChannelQueue::close only changes the state: a fiber blocked in `<- c` stays in receive_waiters with its runnable flag cleared, nobody wakes it, '
+                         'ChannelQueue::close only changes the state: a fiber blocked in `<- c` stays in receive_waiters and the closing fiber never walks that list, nobody resumes it, '
                          'and the program ends in "Fatal error deadlock" although the receive could yield nil', info, replay=F47_REPLAY)
                 r.checks.remove((lab, ok, info))
         if r.kind in ('panic', 'oob', 'unreachable', 'ub', 'diverge', 'depth'):
